@@ -17,7 +17,7 @@ from . import c02 as C02
 ID = "C06"
 LEVEL = "exploration"
 BUDGET = {
-    "quick": {"runs": 1000, "wall": 300, "chunk": 20},
+    "quick": {"runs": 2600, "wall": 300, "chunk": 20},
     "thorough": {"runs": 25000, "wall": 3000, "chunk": 100},
 }
 FAMS = ["Constant", "Sum", "Mean", "UPGrad", "TrimmedMean"]
